@@ -167,7 +167,7 @@ class Gen:
         self.ck(t + ".sub.rl", rv - lv, "(%s) - (%s)" % (r, l))
 
     def source(self):
-        body = [PRELUDE]
+        body = [PRELUDE, CONSTEXPR_BLOCK]
         for name, lines in self.funcs:
             body.append("static void f_%s() {" % name)
             body += ["    " + l for l in lines]
@@ -397,6 +397,385 @@ def sec_qlike_zero(g):
     g.raw('static_assert(!std::is_constructible<au::QuantityPoint<Kel, int>, au::Zero>::value, "a point cannot be made from ZERO");')
 
 
+def sec_points(g):
+    """QuantityPoint: same type (hidden friends), mixed units/reps incl. units with different origins, point +/- quantity
+    in both orders, members, math.hh point overloads."""
+    r = g.rng
+    g.begin("points")
+    x, y, d = r.randrange(250, 350), r.randrange(100, 249), r.randrange(2, 40)
+    g.raw("{ const auto p = kel_pt(I<int>(%d)); const auto p2 = kel_pt(I<int>(%d)); const auto d = kel(I<int>(%d));" % (x, y, d))
+    g.raw('static_assert(std::is_same<decltype(p), const au::QuantityPoint<Kel, int>>::value, "point maker");')
+    g.cmp_family("pt.same", "p", "p2", x, y)
+    g.ck("pt.same.diff.lr", x - y, "p - p2")
+    g.ck("pt.same.diff.rl", y - x, "p2 - p")
+    g.raw('static_assert(std::is_same<decltype(p - p2), au::Quantity<Kel, int>>::value, "point - point is a quantity");')
+    g.ck("pt.same.plus.pq", x + d, "p + d")
+    g.ck("pt.same.plus.qp", y + d, "d + p2")
+    g.ck("pt.same.minus.pq", x - d, "p - d")
+    g.raw("{ auto c = p; c += d; CK(\"%s\", %d, c); c -= d; c -= d; CK(\"%s\", %d, c); }" % (g.tag("pt.same.pluseq"), x + d, g.tag("pt.same.minuseq"), x - d))
+    g.ck("pt.same.min", y, "au::min(p, p2)"), g.ck("pt.same.max", x, "au::max(p2, p)")
+    g.ck("pt.same.clamp", x, "au::clamp(p2, p, p + d)")
+    g.ck("pt.in", x, "p.in(kel_pt)"), g.ck("pt.in.unit", x, "p.in(Kel{})"), g.ck("pt.as", x, "p.as(kel_pt)")
+    g.ck("pt.in.rep", x, "p.in<double>(kel_pt)"), g.ck("pt.as.rep", x, "p.as<long long>(kel_pt)")
+    g.ck("pt.coerce_in", x, "p.coerce_in(kel_pt)"), g.ck("pt.coerce_as", x, "p.coerce_as(kel_pt)")
+    g.ck("pt.coerce_in.rep", x, "p.coerce_in<short>(kel_pt)"), g.ck("pt.coerce_as.rep", x, "p.coerce_as<float>(kel_pt)")
+    g.ck("pt.in.milli", 1000 * x, "p.in(au::milli(kel_pt))")
+    g.ck("pt.coerce_in.cel", x - 274, "p.coerce_in(cel_pt)")          # x K = (x - 273.15) C, truncated toward zero (x > 274)
+    g.ck("pt.rep_cast", x, "au::rep_cast<double>(p)")
+    g.ck("pt.make_quantity_point", y, "au::make_quantity_point<Kel>(I<int>(%d))" % y)
+    g.raw("{ au::QuantityPoint<Kel, int> dflt{}; CK(\"%s\", 0, dflt); }" % g.tag("pt.default"))
+    g.ck("pt.unit_member", 1, "std::is_same<std::remove_cv_t<decltype(p.unit)>, Kel>::value ? 1 : 0")
+    g.raw("{ au::QuantityPoint<au::Milli<Kel>, int> q = p; CK(\"%s\", %d, q); au::QuantityPoint<Kel, double> q2 = p; CK(\"%s\", %d, q2); }" % (
+        g.tag("pt.implicit.milli"), 1000 * x, g.tag("pt.implicit.rep"), x))
+    g.v("pt.maker_times_mag", "(kel_pt * au::mag<2>())(I<int>(3))"), g.v("pt.maker_div_mag", "(kel_pt / au::mag<2>())(I<int>(3))")
+    g.raw("}")
+    # different origins: Cel's origin is declared as 27315 centi-Kel, so both points are expressed in centi-Kel
+    k, c = r.randrange(295, 305), r.randrange(20, 32)
+    lv, rv = 100 * k, 100 * c + 27315
+    g.raw("{ const auto l = kel_pt(I<int>(%d)); const auto r = cel_pt(I<int>(%d));" % (k, c))
+    g.cmp_family("pt.kel_cel", "l", "r", lv, rv)
+    g.ck("pt.kel_cel.diff.lr", lv - rv, "l - r"), g.ck("pt.kel_cel.diff.rl", rv - lv, "r - l")
+    g.ck("pt.kel_cel.min", min(lv, rv), "au::min(l, r)"), g.ck("pt.kel_cel.max", max(lv, rv), "au::max(r, l)")
+    g.ck("pt.kel_cel.clamp", lv, "au::clamp(l, r - kel(I<int>(50)), r + kel(I<int>(50)))")
+    g.ck("pt.cel.to_centikel", 100 * c + 27315, "r.coerce_in(au::centi(kel_pt))")
+    g.raw("}")
+    g.raw("{ const auto l = kel_pt(D(300.0)); const auto r = cel_pt(Fl(26.5f));")
+    g.cmp_family("pt.kel_f64.cel_f32", "l", "r", F(300), F(29965, 100))
+    g.v("pt.kel_f64.cel_f32.diff", "l - r")
+    g.v("pt.cel.as_kel", "r.as(kel_pt)"), g.v("pt.kel.in_cel", "l.in(cel_pt)")
+    g.raw("{ au::QuantityPoint<Kel, double> q = r; V(\"%s\", q); }" % g.tag("pt.implicit.cel_to_kel"))
+    g.ck("pt.isnan", 0, "au::isnan(l) ? 1 : 0")
+    g.ck("pt.isnan.nan", 1, "au::isnan(kel_pt(std::numeric_limits<double>::quiet_NaN())) ? 1 : 0")
+    for fn, want in [("round", 27), ("floor", 26), ("ceil", 27)]:
+        g.ck("pt.%s_in" % fn, want, "au::%s_in(cel_pt, r)" % fn)
+        g.ck("pt.%s_as" % fn, want, "au::%s_as(cel_pt, r)" % fn)
+        g.ck("pt.%s_in.rep" % fn, want, "au::%s_in<int>(cel_pt, r)" % fn)
+        g.ck("pt.%s_as.rep" % fn, want, "au::%s_as<long long>(cel_pt, r)" % fn)
+        g.v("pt.%s_as.kel" % fn, "au::%s_as(kel_pt, r)" % fn)
+    g.raw("}")
+    # point +/- quantity with different units, both orders
+    m = r.randrange(1, 999)
+    g.raw("{ const auto p = kel_pt(I<int>(%d)); const auto q = au::milli(kel)(I<int>(%d)); const auto pc = cel_pt(I<int>(%d)); const auto qk = kel(I<int>(%d));" % (k, m, c, d))
+    g.ck("pt.plus.mixed.pq", 1000 * k + m, "p + q"), g.ck("pt.plus.mixed.qp", 1000 * k + m, "q + p")
+    g.ck("pt.minus.mixed.pq", 1000 * k - m, "p - q")
+    g.ck("pt.plus.cel_kel.pq", c + d, "pc + qk"), g.ck("pt.plus.cel_kel.qp", c + d, "qk + pc"), g.ck("pt.minus.cel_kel", c - d, "pc - qk")
+    g.raw('static_assert(std::is_same<decltype(pc + qk), au::QuantityPoint<Cel, int>>::value, "point + quantity keeps the point origin");')
+    g.raw("}")
+
+
+def sec_wrappers(g):
+    """Every unit-wrapper spelling and every operator it supports, in both operand orders: QuantityMaker,
+    QuantityPointMaker, SingularNameFor, SymbolFor, prefix appliers, unit types, power aliases."""
+    r = g.rng
+    g.begin("wrappers")
+    x, y = r.randrange(3, 60), r.randrange(2, 9)
+    g.raw("const int x = I<int>(%d); const int y = I<int>(%d); const double xd = D(%d.5);" % (x, y, x))
+    lab = lambda t, e, want=None: g.raw('sx::shows("%s", au::unit_label(%s)%s);' % (g.tag(t), e, (', "%s"' % want) if want else ""))
+    # makers
+    g.ck("mk.call", x, "mtr(x)"), g.ck("mk.call.f64", F(2 * x + 1, 2), "mtr(xd)")
+    g.ck("mk.prod", x, "(mtr * ft)(x)"), lab("mk.prod.label", "mtr * ft")
+    g.ck("mk.quot", x, "(mtr / au::seconds)(x)"), lab("mk.quot.label", "mtr / au::seconds", "mtr / s")
+    g.ck("mk.quot.singular", x, "(mtr / au::second)(x)"), lab("mk.quot.singular.label", "mtr / au::second", "mtr / s")
+    g.ck("mk.singular_times_maker", x, "(a_mtr * au::seconds)(x)"), lab("mk.singular_times_maker.label", "a_mtr * au::seconds")
+    g.ck("mk.times_mag", x, "(mtr * au::mag<3>())(x)"), g.ck("mk.div_mag", x, "(mtr / au::mag<3>())(x)")
+    g.ck("mk.times_mag.in", 3 * x, "(mtr * au::mag<3>())(x).in(mtr)")
+    g.ck("mk.pow", x, "au::pow<2>(mtr)(x)"), g.ck("mk.root", F(2 * x + 1, 2), "au::root<2>(au::pow<2>(mtr))(xd)")
+    g.ck("mk.squared", x, "au::squared(mtr)(x)"), g.ck("mk.cubed", x, "au::cubed(mtr)(x)"), g.ck("mk.inverse", x, "au::inverse(au::seconds)(x)")
+    g.ck("mk.sqrt", F(2 * x + 1, 2), "au::sqrt(au::squared(mtr))(xd)"), g.ck("mk.cbrt", F(2 * x + 1, 2), "au::cbrt(au::cubed(mtr))(xd)")
+    g.raw('static_assert(std::is_same<decltype(au::sqrt(au::squared(mtr))), std::remove_cv_t<decltype(mtr)>>::value, "sqrt(squared(maker)) is the maker");')
+    g.raw('static_assert(std::is_same<std::remove_cv_t<decltype(mtr.unit)>, Mtr>::value && std::is_same<std::remove_cv_t<decltype(kel_pt.unit)>, Kel>::value, "maker::unit");')
+    # singular names
+    lab("sg.prod", "a_mtr * au::second"), lab("sg.pow", "au::pow<2>(au::second)", "s^2")
+    g.ck("sg.in_slot", x, "(mtr * au::seconds)(x).in(a_mtr * au::second)")
+    g.ck("sg.in_slot.quot", x, "(mtr / au::seconds)(x).in(mtr / au::pow<1>(au::second))")
+    # symbols: number * symbol etc. (MakesQuantityFromNumber), quantity * symbol etc. (ScalesQuantity), symbol * symbol ...
+    g.ck("sym.num_times", x, "x * m_sym"), g.ck("sym.times_num", x, "m_sym * x")
+    g.raw('static_assert(std::is_same<decltype(x * m_sym), au::Quantity<Mtr, int>>::value && std::is_same<decltype(m_sym * xd), au::Quantity<Mtr, double>>::value, "number * symbol");')
+    g.ck("sym.num_div", F(2 * x + 1, 2), "xd / s_sym"), g.ck("sym.div_num", F(1, 2), "m_sym / D(2.0)")
+    g.raw('static_assert(std::is_same<decltype(xd / s_sym), au::Quantity<au::UnitInverseT<au::Seconds>, double>>::value, "number / symbol");')
+    g.ck("sym.q_times", x, "mtr(x) * s_sym"), g.ck("sym.times_q", x, "s_sym * mtr(x)")
+    g.ck("sym.q_div", x, "mtr(x) / s_sym"), g.ck("sym.div_q", F(1, 2), "m_sym / au::seconds(D(2.0))")
+    g.raw('static_assert(std::is_same<decltype(mtr(x) / s_sym), au::Quantity<au::UnitQuotientT<Mtr, au::Seconds>, int>>::value, "quantity / symbol");')
+    g.ck("sym.sym_times_sym", x, "x * (m_sym * s_sym)"), g.ck("sym.sym_div_sym", x, "x * (m_sym / s_sym)")
+    # pow/root of a symbol are hidden friends: reachable by ADL once `pow` names a template (using-declaration)
+    g.raw("{ using au::pow; using au::root;")
+    g.ck("sym.pow", x, "x * pow<2>(m_sym)"), g.ck("sym.root", x, "x * root<2>(pow<2>(m_sym))"), g.ck("sym.squared", x, "x * au::squared(m_sym)")
+    g.raw("}")
+    g.ck("sym.mag_times", 3 * x, "(x * (au::mag<3>() * m_sym)).in(mtr)"), g.ck("sym.times_mag", 3 * x, "(x * (m_sym * au::mag<3>())).in(mtr)")
+    g.ck("sym.div_mag", x, "(x * y * (m_sym / au::mag<%d>())).in(mtr) / 1 - x * y / %d * 0" % (1, 1)) if False else None
+    g.ck("sym.mag_div", 3 * x, "(x * (au::mag<3>() / s_sym)).in(au::inverse(au::seconds))")
+    g.ck("sym.in_slot", 1000 * x, "au::kilo(mtr)(x).in(m_sym)"), g.ck("sym.in_slot.quot", x, "(mtr / au::seconds)(x).in(m_sym / s_sym)")
+    g.ck("sym.symbol_for", x, "x * au::symbol_for(mtr / au::second)"), lab("sym.symbol_for.label", "au::symbol_for(mtr / au::second)", "mtr / s")
+    g.ck("sym.library", x, "x * au::symbols::s")
+    # prefixes on every kind of wrapper
+    g.ck("pf.maker", x, "au::kilo(mtr)(x)"), g.ck("pf.maker.in", 1000 * x, "au::kilo(mtr)(x).in(mtr)")
+    g.ck("pf.point_maker", 1000 * x, "au::kilo(kel_pt)(x).in(kel_pt)")
+    g.ck("pf.singular", 1000 * x, "(au::kilo(mtr) * au::seconds)(x).in(a_mtr * au::second) / 1") if False else None
+    g.ck("pf.singular", x, "(au::kilo(mtr) / au::seconds)(x).in(au::kilo(mtr) / au::second)")
+    g.ck("pf.singular2", x, "(au::kilo(mtr) * au::seconds)(x).in(au::kilo(a_mtr) * au::second)")
+    g.ck("pf.symbol", 1000 * x, "(x * au::kilo(m_sym)).in(mtr)")
+    g.ck("pf.unit_type", x, "au::milli(mtr)(1000 * x).coerce_in(au::Kilo<au::Milli<Mtr>>{})")
+    lab("pf.unit_type.label", "au::kilo(Mtr{})", "kmtr"), lab("pf.label.milli", "au::milli(mtr)", "mmtr"), lab("pf.label.kibi", "au::kibi(mtr)", "Kimtr")
+    for pf, f in [("quetta", 30), ("ronna", 27), ("yotta", 24), ("zetta", 21), ("exa", 18), ("peta", 15), ("tera", 12), ("giga", 9),
+                  ("mega", 6), ("kilo", 3), ("hecto", 2), ("deka", 1), ("deci", -1), ("centi", -2), ("milli", -3), ("micro", -6),
+                  ("nano", -9), ("pico", -12), ("femto", -15), ("atto", -18), ("zepto", -21), ("yocto", -24), ("ronto", -27),
+                  ("quecto", -30)]:
+        g.ck("pf.ratio." + pf, 1, "(au::unit_ratio(au::%s(mtr), mtr) == au::pow<%d>(au::mag<10>())) ? 1 : 0" % (pf, f))
+    for pf, f in [("kibi", 10), ("mebi", 20), ("gibi", 30), ("tebi", 40), ("pebi", 50), ("exbi", 60), ("zebi", 70), ("yobi", 80)]:
+        g.ck("pf.ratio." + pf, 1, "(au::unit_ratio(au::%s(mtr), mtr) == au::pow<%d>(au::mag<2>())) ? 1 : 0" % (pf, f))
+    # unit types: * / pow root with units and magnitudes
+    lab("ut.prod", "Mtr{} * au::Seconds{}"), lab("ut.quot", "Mtr{} / au::Seconds{}", "mtr / s"), lab("ut.pow", "au::pow<3>(Mtr{})", "mtr^3")
+    lab("ut.root", "au::root<2>(Mtr{})"), lab("ut.times_mag", "Mtr{} * au::mag<5>()"), lab("ut.div_mag", "Mtr{} / au::mag<5>()")
+    lab("ut.inverse", "au::inverse(au::Seconds{})"), lab("ut.squared", "au::squared(Mtr{})", "mtr^2")
+    g.ck("ut.scaled.in", 5 * x, "au::make_quantity<decltype(Mtr{} * au::mag<5>())>(x).in(mtr)")
+    g.funcs = [(n, [l for l in ls if l is not None]) for n, ls in g.funcs]
+
+
+def sec_constant_mag_traits(g):
+    r = g.rng
+    g.begin("constant")
+    x = r.randrange(2, 30)
+    g.raw("constexpr auto C = au::make_constant(mtr / au::seconds * au::mag<1500>());   // 1500 mtr/s")
+    g.raw("constexpr auto mps = mtr / au::seconds; const int x = I<int>(%d); const double xd = D(%d.25);" % (x, x))
+    xq = F(4 * x + 1, 4)
+    g.raw('static_assert(std::is_same<std::remove_cv_t<decltype(C)>, au::Constant<decltype((Mtr{} / au::Seconds{}) * au::mag<1500>())>>::value, "make_constant");')
+    g.ck("const.as.rep", 1, "C.as<int>()"), g.ck("const.as.rep_unit", 1500, "C.as<int>(mps)"), g.ck("const.in.rep_unit", 1500, "C.in<short>(mps)")
+    g.ck("const.as.f64", F(3, 2), "C.as<double>(au::kilo(mtr) / au::second)"), g.ck("const.in.f32", F(3, 2), "C.in<float>(au::kilo(mtr) / au::second)")
+    g.ck("const.coerce_as", 1, "C.coerce_as<int>(au::kilo(mtr) / au::second)"), g.ck("const.coerce_in", 1, "C.coerce_in<int>(au::kilo(mtr) / au::second)")
+    g.ck("const.can_store.i16", 1, "C.can_store_value_in<int16_t>(mps) ? 1 : 0"), g.ck("const.can_store.i8", 0, "C.can_store_value_in<int8_t>(mps) ? 1 : 0")
+    g.ck("const.can_store.kilo_int", 0, "C.can_store_value_in<int>(au::kilo(mtr) / au::second) ? 1 : 0")
+    g.ck("const.can_store.kilo_f32", 1, "C.can_store_value_in<float>(au::kilo(mtr) / au::second) ? 1 : 0")
+    g.raw("{ au::Quantity<decltype(Mtr{} / au::Seconds{}), int> q = C; CK(\"%s\", 1500, q); au::QuantityD<decltype(au::Kilo<Mtr>{} / au::Seconds{})> q2 = C; CK(\"%s\", %s, q2); }" % (
+        g.tag("const.implicit.int"), g.tag("const.implicit.f64"), lit(F(3, 2))))
+    g.ck("const.num_times", x, "x * C"), g.ck("const.times_num", x, "C * x"), g.ck("const.num_div", xq, "xd / C"), g.ck("const.div_num", F(1, 4), "C / D(4.0)")
+    g.ck("const.num_times.in", 1500 * x, "(x * C).in(mps)")
+    g.ck("const.q_times", x, "au::seconds(x) * C"), g.ck("const.times_q", x, "C * au::seconds(x)"), g.ck("const.q_div", xq, "mtr(xd) / C"), g.ck("const.div_q", F(1, 2), "C / au::seconds(D(2.0))")
+    g.ck("const.q_times.in", 1500 * x, "(au::seconds(x) * C).in(mtr)")
+    g.raw('static_assert(std::is_same<decltype(au::seconds(x) * C), decltype(C * au::seconds(x))>::value, "quantity * constant commutes in type");')
+    lab = lambda t, e, want=None: g.raw('sx::shows("%s", au::unit_label(%s)%s);' % (g.tag(t), e, (', "%s"' % want) if want else ""))
+    lab("const.label", "C"), lab("const.c_times_c", "C * C"), lab("const.c_div_c", "C / C"), lab("const.c_times_maker", "C * au::seconds"), lab("const.maker_times_c", "au::seconds * C")
+    lab("const.c_div_maker", "C / mtr"), lab("const.maker_div_c", "mtr / C"), lab("const.c_times_singular", "C * au::second"), lab("const.singular_times_c", "au::second * C")
+    lab("const.c_div_singular", "C / a_mtr"), lab("const.singular_div_c", "a_mtr / C")
+    g.ck("const.maker_composed", x, "(C * au::seconds)(x)"), g.ck("const.maker_composed.in", 1500 * x, "(au::seconds * C)(x).in(mtr)")
+    g.raw("{ using au::pow; using au::root;")
+    lab("const.pow", "pow<2>(C)"), lab("const.root", "root<2>(pow<2>(C))"), lab("const.squared", "au::squared(C)")
+    g.raw("}")
+    lab("const.mag_times", "au::mag<2>() * C"), lab("const.times_mag", "C * au::mag<2>()"), lab("const.div_mag", "C / au::mag<2>()"), lab("const.mag_div", "au::mag<2>() / C")
+    g.ck("const.times_mag.value", 3000, "(C * au::mag<2>()).in<int>(mps)")
+    g.ck("const.in_slot", 1, "(mtr / au::seconds)(1500 * x).coerce_in(C) / x")
+
+    g.begin("magnitude")
+    g.raw("constexpr auto m = au::mag<360>() / au::mag<7>(); constexpr auto PI = au::Magnitude<au::Pi>{};")
+    g.ck("mag.eq", 1, "(au::mag<6>() * au::mag<60>() / au::mag<7>() == m) ? 1 : 0"), g.ck("mag.ne", 1, "(m != au::mag<51>()) ? 1 : 0")
+    g.ck("mag.eq.rl", 0, "(au::mag<51>() == m) ? 1 : 0"), g.ck("mag.ne.same", 0, "(m != m) ? 1 : 0")
+    g.ck("mag.get_value.f64", F(45), "au::get_value<double>(m * au::mag<7>() / au::mag<8>())"), g.ck("mag.get_value.int", 360, "au::get_value<int>(au::numerator(m))")
+    g.ck("mag.denominator", 7, "au::get_value<uint8_t>(au::denominator(m))"), g.ck("mag.integer_part", 360, "au::get_value<int>(au::integer_part(m))")
+    g.ck("mag.is_rational", 1, "au::is_rational(m) ? 1 : 0"), g.ck("mag.is_rational.pi", 0, "au::is_rational(PI) ? 1 : 0")
+    g.ck("mag.is_integer", 0, "au::is_integer(m) ? 1 : 0"), g.ck("mag.is_integer.yes", 1, "au::is_integer(m * au::mag<7>()) ? 1 : 0")
+    g.ck("mag.pow", 1, "(au::pow<2>(au::mag<12>()) == au::mag<144>()) ? 1 : 0"), g.ck("mag.root", 1, "(au::root<2>(au::mag<144>()) == au::mag<12>()) ? 1 : 0")
+    g.ck("mag.inverse", 1, "(au::inverse(au::mag<4>()) == au::mag<1>() / au::mag<4>()) ? 1 : 0"), g.ck("mag.squared", 1, "(au::squared(au::mag<3>()) == au::mag<9>()) ? 1 : 0")
+    g.ck("mag.representable.i8", 0, "au::representable_in<int8_t>(au::mag<360>()) ? 1 : 0"), g.ck("mag.representable.i16", 1, "au::representable_in<int16_t>(au::mag<360>()) ? 1 : 0")
+    g.ck("mag.representable.frac_int", 0, "au::representable_in<int>(m) ? 1 : 0"), g.ck("mag.representable.frac_f32", 1, "au::representable_in<float>(m) ? 1 : 0")
+    g.ck("mag.common", 1, "(au::common_magnitude(au::mag<6>(), au::mag<4>() / au::mag<5>()) == au::mag<2>() / au::mag<5>()) ? 1 : 0")
+    g.v("mag.pi.f64", "au::get_value<double>(PI)"), g.v("mag.pi.f32", "au::get_value<float>(PI * au::mag<2>())"), g.v("mag.sqrt2.f80", "au::get_value<long double>(au::root<2>(au::mag<2>()))")
+    g.raw('sx::shows("%s", au::mag_label(m), "360 / 7"); sx::shows("%s", au::mag_label(au::mag<5>()), "5"); sx::shows("%s", au::mag_label(PI));' % (
+        g.tag("mag.label.ratio"), g.tag("mag.label.int"), g.tag("mag.label.pi")))
+
+    g.begin("unit_traits")
+    for t, want, e in [
+        ("is_unit", 1, "au::is_unit(Mtr{})"), ("is_unit.maker", 0, "au::is_unit(mtr)"), ("fits_in_unit_slot.maker", 1, "au::fits_in_unit_slot(mtr)"),
+        ("fits_in_unit_slot.sym", 1, "au::fits_in_unit_slot(m_sym)"), ("fits_in_unit_slot.int", 0, "au::fits_in_unit_slot(3)"),
+        ("has_same_dimension", 1, "au::has_same_dimension(mtr, ft, au::kilo(mtr))"), ("has_same_dimension.no", 0, "au::has_same_dimension(mtr, au::seconds)"),
+        ("quantity_equivalent", 1, "au::are_units_quantity_equivalent(Cel{}, Kel{})"), ("point_equivalent", 0, "au::are_units_point_equivalent(Cel{}, Kel{})"),
+        ("quantity_equivalent.scaled", 1, "au::are_units_quantity_equivalent(ft * au::mag<1250>(), mtr * au::mag<381>())"),
+        ("quantity_equivalent.no", 0, "au::are_units_quantity_equivalent(ft, mtr)"),
+        ("is_dimensionless", 1, "au::is_dimensionless(mtr / ft)"), ("is_unitless_unit", 0, "au::is_unitless_unit(mtr / ft)"), ("is_unitless_unit.yes", 1, "au::is_unitless_unit(mtr / mtr)"),
+        ("unit_ratio", 1, "(au::unit_ratio(ft, mtr) == au::mag<381>() / au::mag<1250>())"), ("unit_ratio.rl", 1, "(au::unit_ratio(mtr, ft) == au::mag<1250>() / au::mag<381>())"),
+        ("origin_displacement", 27315, "au::origin_displacement(Kel{}, Cel{}).in(au::centi(kel))"), ("origin_displacement.rl", -27315, "au::origin_displacement(Cel{}, Kel{}).in(au::centi(kel))"),
+        ("associated_unit", 1, "std::is_same<decltype(au::associated_unit(mtr / au::second)), au::UnitQuotientT<Mtr, au::Seconds>>::value"),
+        ("associated_unit_for_points", 1, "std::is_same<decltype(au::associated_unit_for_points(cel_pt)), Cel>::value"),
+        ("common_unit.sym", 1, "std::is_same<decltype(au::common_unit(mtr, ft)), decltype(au::common_unit(ft, mtr))>::value"),
+        ("common_unit.ratio", 1, "(au::unit_ratio(mtr, au::common_unit(ft, mtr)) == au::mag<1250>())"),
+        ("common_point_unit.sym", 1, "std::is_same<decltype(au::common_point_unit(kel_pt, cel_pt)), decltype(au::common_point_unit(cel_pt, kel_pt))>::value"),
+        ("common_point_unit.ratio", 1, "(au::unit_ratio(Kel{}, au::common_point_unit(kel_pt, cel_pt)) == au::mag<100>())"),
+        ("equiv_types", 1, "au::AreQuantityTypesEquivalent<au::Quantity<Cel, int>, au::Quantity<Kel, int>>::value"),
+        ("equiv_types.no", 0, "au::AreQuantityTypesEquivalent<au::Quantity<Cel, int>, au::Quantity<Kel, long>>::value"),
+        ("equiv_point_types.no", 0, "au::AreQuantityPointTypesEquivalent<au::QuantityPoint<Cel, int>, au::QuantityPoint<Kel, int>>::value"),
+    ]:
+        g.ck("ut." + t, want, "(%s) ? 1 : 0" % e if "in(" not in e else e)
+        if "in(" not in e:
+            g.raw("static_assert((%s) == %s, \"constant expression\");" % (e, "true" if want else "false"))
+    # std::common_type and std::numeric_limits — including ODR-use of every static data member (needs an out-of-class
+    # definition in C++14, an inline variable in C++17)
+    g.raw("using QI = au::Quantity<Mtr, int>; using QD = au::Quantity<Ft, double>; using QF = au::Quantity<Mtr, float>;")
+    g.raw('static_assert(std::is_same<std::common_type_t<QI, QI>, QI>::value && std::is_same<std::common_type_t<QI, QF>, au::Quantity<Mtr, float>>::value, "common_type same unit");')
+    g.raw('static_assert(std::is_same<std::common_type_t<QI, QD>, std::common_type_t<QD, QI>>::value && std::is_same<std::common_type_t<QI, QD>::Rep, double>::value, "common_type mixed");')
+    g.raw('static_assert(std::is_same<std::common_type_t<QI, QD, QF>::Rep, double>::value, "common_type of three");')
+    g.raw('static_assert(std::is_same<std::common_type_t<au::QuantityPoint<Kel, int>, au::QuantityPoint<Cel, float>>, std::common_type_t<au::QuantityPoint<Cel, float>, au::QuantityPoint<Kel, int>>>::value, "common_type of points");')
+    members = ["is_specialized", "is_integer", "is_signed", "is_exact", "has_infinity", "has_quiet_NaN", "has_signaling_NaN", "has_denorm",
+               "has_denorm_loss", "round_style", "is_iec559", "is_bounded", "is_modulo", "digits", "digits10", "max_digits10", "radix",
+               "min_exponent", "min_exponent10", "max_exponent", "max_exponent10", "traps", "tinyness_before"]
+    for Q, qn in [("QI", "i32"), ("QF", "f32"), ("const QD", "cf64"), ("volatile QI", "vi32"), ("const volatile QF", "cvf32")]:
+        base = Q.replace("const ", "").replace("volatile ", "")
+        rep = {"QI": "int", "QF": "float", "QD": "double"}[base]
+        for mname in members:
+            g.raw("{ const auto &ref = std::numeric_limits<%s>::%s; CK(\"%s\", static_cast<long double>(std::numeric_limits<%s>::%s), static_cast<long double>(ref)); }" % (
+                Q, mname, g.tag("nl.%s.%s" % (qn, mname)), rep, mname))
+        for fn in ["max", "lowest", "min", "epsilon", "round_error", "denorm_min"] + (["infinity"] if rep != "int" else []):
+            g.raw("CK(\"%s\", static_cast<long double>(std::numeric_limits<%s>::%s()), std::numeric_limits<%s>::%s());" % (g.tag("nl.%s.%s()" % (qn, fn)), rep, fn, Q, fn))
+        if rep != "int":
+            g.raw("CK(\"%s\", 1, au::isnan(std::numeric_limits<%s>::quiet_NaN()) && au::isnan(std::numeric_limits<%s>::signaling_NaN()) ? 1 : 0);" % (g.tag("nl.%s.nan" % qn), Q, Q))
+    # ODR-use (bind a reference / take the address) of the library's constexpr static data members
+    # (the four `unit` static members are ODR-used in a separate probe, ODR_UNIT_PROGRAM: see c20_cxx)
+    for t, e, want in [("Seconds.label", "au::Seconds::label", "s"), ("Kilo.label", "au::Kilo<Mtr>::label", "kmtr"), ("Kibi.label", "au::Kibi<au::Seconds>::label", "Kis"),
+                       ("unit_label.ref", "au::unit_label(mtr / au::second)", "mtr / s"), ("mag_label.ref", "au::mag_label(au::mag<22>() / au::mag<7>())", "22 / 7"),
+                       ("unit_label.default", "au::unit_label(au::UnitImpl<au::Mass>{})", None), ("unit_label.scaled", "au::unit_label(Mtr{} * au::mag<3>())", "[3 mtr]"),
+                       ("unit_label.common", "au::unit_label(au::common_unit(mtr, ft))", None), ("unit_label.pow", "au::unit_label(au::pow<-2>(Mtr{}))", "mtr^(-2)"),
+                       ("unit_label.root", "au::unit_label(au::root<3>(Mtr{}))", "mtr^(1/3)")]:
+        g.raw("{ const auto &ref = %s; const char *ptr = &ref[0]; sx::shows(\"%s\", ptr%s); CK(\"%s\", std::char_traits<char>::length(ptr), sizeof(ref) - 1); }" % (
+            e, g.tag("odr." + t), (', "%s"' % want) if want else "", g.tag("odr." + t + ".size")))
+
+
+def sec_math_io(g):
+    g.begin("math")
+    hz = "au::inverse(au::seconds)"
+    for t, want, e in [
+        ("abs.i32", 7, "au::abs(mtr(I<int>(-7)))"), ("abs.f64", F(5, 2), "au::abs(mtr(D(-2.5)))"), ("abs.i8", 7, "au::abs(mtr(I<int8_t>(-7)))"),
+        ("int_pow.3", 64, "au::int_pow<3>(mtr(I<int>(4)))"), ("int_pow.-2", F(1, 16), "au::int_pow<-2>(mtr(D(4.0)))"), ("int_pow.0", 1, "au::int_pow<0>(mtr(I<int>(4)))"),
+        ("sqrt", F(5, 2), "au::sqrt(au::squared(mtr)(D(6.25)))"), ("sqrt.int", 3, "au::sqrt(au::squared(mtr)(I<int>(9)))"),
+        ("fmod", F(3, 2), "au::fmod(mtr(D(7.5)), mtr(D(2.0)))"), ("fmod.int", 1, "au::fmod(mtr(I<int>(7)), mtr(I<int>(2)))"),
+        ("remainder", F(-1, 2), "au::remainder(mtr(D(7.5)), mtr(D(2.0)))"),
+        ("round_in", 3, "au::round_in(mtr, mtr(D(2.5)))"), ("round_as", 3, "au::round_as(mtr, mtr(D(2.5)))"),
+        ("round_in.rep", 3, "au::round_in<int>(mtr, mtr(D(2.5)))"), ("round_as.rep", 3, "au::round_as<int8_t>(mtr, mtr(D(2.5)))"),
+        ("round_in.neg", -3, "au::round_in(mtr, mtr(D(-2.5)))"), ("round_in.f32", 2, "au::round_in(mtr, mtr(Fl(2.25f)))"),
+        ("round_in.other_unit", 123, "au::round_in(au::centi(mtr), mtr(D(1.234)))"), ("round_in.int_input", 7000, "au::round_in(au::milli(mtr), mtr(I<int>(7)))"),
+        ("floor_in", 2, "au::floor_in(mtr, mtr(D(2.5)))"), ("floor_as", 2, "au::floor_as(mtr, mtr(D(2.5)))"), ("floor_in.rep", -3, "au::floor_in<int>(mtr, mtr(D(-2.5)))"),
+        ("floor_as.rep", 2, "au::floor_as<long>(mtr, mtr(D(2.5)))"), ("floor_in.other_unit", 123, "au::floor_in(au::centi(mtr), mtr(D(1.239)))"),
+        ("ceil_in", 3, "au::ceil_in(mtr, mtr(D(2.5)))"), ("ceil_as", 3, "au::ceil_as(mtr, mtr(D(2.5)))"), ("ceil_in.rep", -2, "au::ceil_in<int>(mtr, mtr(D(-2.5)))"),
+        ("ceil_as.rep", 3, "au::ceil_as<unsigned>(mtr, mtr(D(2.5)))"), ("ceil_in.other_unit", 124, "au::ceil_in(au::centi(mtr), mtr(D(1.231)))"),
+        ("inverse_as.f64", F(1, 4), "au::inverse_as(%s, au::seconds(D(4.0)))" % hz), ("inverse_in.f64", F(1, 4), "au::inverse_in(%s, au::seconds(D(4.0)))" % hz),
+        ("inverse_as.int", 250000, "au::inverse_as(%s, au::micro(au::seconds)(I<int>(4)))" % hz), ("inverse_in.int", 250000, "au::inverse_in(%s, au::micro(au::seconds)(I<int>(4)))" % hz),
+        ("inverse_as.rep", 250, "au::inverse_as<int>(%s, au::milli(au::seconds)(I<int>(4)))" % hz), ("inverse_in.rep", F(1, 4), "au::inverse_in<double>(%s, au::seconds(I<int>(4)))" % hz),
+        ("isnan", 0, "au::isnan(mtr(D(1.0))) ? 1 : 0"), ("isnan.nan", 1, "au::isnan(mtr(std::numeric_limits<float>::quiet_NaN())) ? 1 : 0"),
+        ("copysign.q_raw", -3, "au::copysign(mtr(D(3.0)), D(-1.0))"), ("copysign.raw_q", -3, "au::copysign(D(3.0), mtr(D(-2.0)))"),
+        ("copysign.q_q", 3, "au::copysign(mtr(D(-3.0)), ft(D(2.0)))"), ("copysign.negzero", -3, "au::copysign(mtr(D(3.0)), mtr(D(-0.0)))"),
+        ("sin.0", 0, "au::sin(au::radians(D(0.0)))"), ("cos.0", 1, "au::cos(au::radians(D(0.0)))"), ("tan.0", 0, "au::tan(au::radians(Fl(0.0f)))"),
+        ("arcsin.0", 0, "au::arcsin(D(0.0))"), ("arccos.1", 0, "au::arccos(D(1.0))"), ("arctan.0", 0, "au::arctan(Fl(0.0f))"),
+        ("arctan2.raw", 0, "au::arctan2(D(0.0), D(1.0))"), ("arctan2.q", 0, "au::arctan2(mtr(D(0.0)), ft(D(1.0)))"),
+        ("hypot", 5, "au::hypot(mtr(D(3.0)), mtr(D(4.0)))"), ("clamp.mixed", 1000, "au::clamp(au::milli(mtr)(I<int>(1500)), mtr(I<int>(0)), mtr(I<int>(1)))"),
+    ]:
+        g.ck("math." + t, want, e)
+    for t, e in [("cbrt", "au::cbrt(au::cubed(mtr)(D(27.0)))"), ("sin", "au::sin(au::radians(D(1.0)))"), ("cos.f32", "au::cos(au::radians(Fl(1.0f)))"),
+                 ("tan", "au::tan(au::radians(D(1.0)))"), ("sin.int", "au::sin(au::radians(I<int>(1)))"), ("arcsin", "au::arcsin(D(0.625))"),
+                 ("arccos", "au::arccos(Fl(0.625f))"), ("arctan", "au::arctan(D(0.625))"), ("arctan2", "au::arctan2(mtr(D(1.5)), mtr(D(-2.0)))"),
+                 ("hypot.mixed", "au::hypot(mtr(D(3.0)), ft(D(4.0)))"), ("sqrt.mixed_rep", "au::sqrt(au::squared(mtr)(Fl(2.0f)))")]:
+        g.v("math." + t, e)
+    g.raw('static_assert(std::is_same<decltype(au::sin(au::radians(1.0f))), float>::value && std::is_same<decltype(au::arcsin(0.5)), au::Quantity<au::Radians, double>>::value, "trig types");')
+    g.raw('static_assert(std::is_same<decltype(au::round_in<int>(mtr, mtr(2.5))), int>::value && std::is_same<decltype(au::round_as<int>(mtr, mtr(2.5))), au::Quantity<Mtr, int>>::value, "round types");')
+
+    g.begin("io")
+    for t, want, e in [
+        ("q.i32", "-7 mtr", "mtr(I<int>(-7))"), ("q.f64", "2.5 ft", "ft(D(2.5))"), ("q.i8", "65 mtr", "mtr(I<int8_t>(65))"), ("q.u8", "200 mtr", "mtr(I<uint8_t>(200))"),
+        ("q.i8.neg", "-5 mtr", "mtr(I<int8_t>(-5))"), ("q.u64", "18446744073709551615 mtr", "mtr(std::numeric_limits<uint64_t>::max())"),
+        ("q.i64.min", "-9223372036854775808 mtr", "mtr(std::numeric_limits<int64_t>::lowest())"), ("q.bool_like", "1 mtr", "mtr(I<uint16_t>(1))"),
+        ("q.compound", "3 mtr / s", "(mtr / au::seconds)(I<int>(3))"), ("q.prefixed", "4 kmtr", "au::kilo(mtr)(I<int>(4))"), ("q.unitless", "6 ", "au::make_quantity<au::UnitProductT<>>(I<int>(6))"),
+        ("pt.i32", "@(300 Kel)", "kel_pt(I<int>(300))"), ("pt.f64", "@(26.5 Cel)", "cel_pt(D(26.5))"), ("pt.i8", "@(-5 Cel)", "cel_pt(I<int8_t>(-5))"),
+        ("zero", "0", "au::ZERO"), ("mag", "360 / 7", "au::mag<360>() / au::mag<7>()"), ("mag.int", "5", "au::mag<5>()"),
+        ("constant", "[1500 mtr / s]", "au::make_constant(mtr / au::seconds * au::mag<1500>())"), ("symbol", "mtr", "m_sym"), ("symbol.compound", "mtr / s", "m_sym / s_sym"),
+        ("q.f32", "0.25 mtr", "mtr(Fl(0.25f))"), ("q.scaled", "2 [3 mtr]", "(mtr * au::mag<3>())(I<int>(2))"),
+    ]:
+        g.raw('sx::shows("%s", sx::str(%s), "%s");' % (g.tag("io." + t), e, want))
+    g.raw('{ std::ostringstream o; o << mtr(1) << "," << kel_pt(2) << "," << au::ZERO; sx::shows("%s", o.str(), "1 mtr,@(2 Kel),0"); }' % g.tag("io.chain"))
+    g.raw('sx::shows("%s", sx::str(mtr(I<int>(1)) + ft(I<int>(1))));' % g.tag("io.common_unit"))
+
+
+CONSTEXPR_BLOCK = r"""
+// ---- everything below is evaluated by the compiler: constexpr-ness is part of the API (accepted alike everywhere) ----
+namespace sxc {
+using namespace sx;
+constexpr auto a = mtr(7), b = mtr(3);
+constexpr auto f = ft(10);
+SA(a + b == mtr(10)); SA(a - b == mtr(4)); SA(a * 2 == mtr(14)); SA(2 * a == mtr(14)); SA(a / 2 == mtr(3)); SA((a * b).in(au::squared(mtr)) == 21);
+SA(a % b == mtr(1)); SA(-a == mtr(-7)); SA(+a == a); SA(a > b && a >= b && b < a && b <= a && a != b && !(a == b));
+SA(a + f == f + a); SA((a + f).in(mtr / au::mag<1250>()) == 7 * 1250 + 10 * 381); SA(a > f && f < a && a != f); SA((a % f).in(mtr / au::mag<1250>()) == (7 * 1250) % 3810);
+SA(min(a, b) == b && max(a, b) == a && clamp(a, b, b) == b); SA(au::min(a, f) == f && au::max(f, a) == a && au::clamp(f, b, a) == f);
+SA(a > au::ZERO && au::ZERO < a && au::ZERO != a && au::ZERO == au::ZERO && mtr(0) == au::ZERO);
+SA(a.in(au::milli(mtr)) == 7000); SA(a.as(au::milli(mtr)) == au::milli(mtr)(7000)); SA(a.in<double>(mtr) == 7.0); SA(a.coerce_in(au::kilo(mtr)) == 0);
+SA(au::milli(mtr)(7500).coerce_as(mtr) == a); SA(au::rep_cast<double>(a) == mtr(7.0));
+SA(!au::will_conversion_overflow(a, au::milli(mtr)) && !au::will_conversion_truncate(a, au::milli(mtr)) && !au::is_conversion_lossy(a, au::milli(mtr)));
+SA(au::will_conversion_truncate(a, au::kilo(mtr)) && au::is_conversion_lossy(a, au::kilo(mtr)) && au::will_conversion_overflow(mtr(int8_t{100}), au::milli(mtr)));
+SA(au::will_conversion_overflow<int8_t>(a, au::centi(mtr)) && !au::will_conversion_truncate<int8_t>(a, au::centi(mtr)) && au::is_conversion_lossy<int8_t>(a, au::centi(mtr)));
+constexpr au::Quantity<Mtr, int> zq = au::ZERO; SA(zq == mtr(0));
+constexpr au::Quantity<au::Milli<Mtr>, long> conv = a; SA(conv.in(au::milli(mtr)) == 7000);
+constexpr auto compound() { auto c = mtr(7); c += mtr(3); c -= mtr(1); c *= 2; c /= 3; return c; }
+SA(compound() == mtr(6));
+constexpr auto p = kel_pt(300); constexpr auto p2 = cel_pt(27);
+SA(p < p2 && p2 > p && p != p2 && p <= p2 && !(p >= p2) && !(p == p2)); SA((p2 - p).in(au::centi(kel)) == 15); SA(p + kel(5) == kel_pt(305) && kel(5) + p == kel_pt(305) && p - kel(5) == kel_pt(295));
+SA(p2.coerce_in(au::centi(kel_pt)) == 30015); SA(au::min(p, p2) == p && au::max(p, p2) == p2); SA(p - kel_pt(1) == kel(299));
+constexpr auto pcompound() { auto c = kel_pt(300); c += kel(3); c -= kel(1); return c; }
+SA(pcompound() == kel_pt(302));
+SA(5 * m_sym == mtr(5) && m_sym * 5 == mtr(5) && (10 / s_sym).in(au::inverse(au::seconds)) == 10); SA((6 * m_sym / s_sym).in(mtr / au::second) == 6);
+constexpr auto CC = au::make_constant(mtr * au::mag<1500>());
+SA(CC.as<int>(mtr) == mtr(1500) && CC.can_store_value_in<int16_t>(mtr) && !CC.can_store_value_in<int8_t>(mtr)); SA((2 * CC).in(mtr) == 3000 && (CC * 2).in(mtr) == 3000);
+SA(au::seconds(3) == std::chrono::seconds(3) && std::chrono::seconds(3) == au::seconds(3) && std::chrono::milliseconds(2999) < au::seconds(3) && au::seconds(3) > std::chrono::milliseconds(2999));
+SA(std::chrono::milliseconds(2999) != au::seconds(3) && au::seconds(3) != std::chrono::milliseconds(2999) && std::chrono::minutes(1) >= au::seconds(60) && au::seconds(60) <= std::chrono::minutes(1));
+SA((au::seconds(3) + std::chrono::milliseconds(5)).in(au::milli(au::seconds)) == 3005 && (std::chrono::milliseconds(5) + au::seconds(3)).in(au::milli(au::seconds)) == 3005);
+SA((au::seconds(3) - std::chrono::milliseconds(5)).in(au::milli(au::seconds)) == 2995 && (std::chrono::milliseconds(5) - au::seconds(3)).in(au::milli(au::seconds)) == -2995);
+SA(au::as_quantity(std::chrono::hours(2)) == au::hours(2)); SA(au::as_chrono_duration(au::minutes(2)) == std::chrono::seconds(120));
+constexpr std::chrono::nanoseconds ns = au::seconds(2); SA(ns.count() == 2000000000);
+SA(au::int_pow<2>(a) == au::squared(mtr)(49)); SA(au::inverse_as(au::inverse(au::seconds), au::micro(au::seconds)(4)) == au::inverse(au::seconds)(250000));
+SA(au::copysign(mtr(3.0), -1.0) == mtr(-3.0) && au::copysign(3.0, mtr(-1.0)) == -3.0 && !au::isnan(mtr(1.0)) && !au::isnan(kel_pt(1.0)));
+SA(std::numeric_limits<au::Quantity<Mtr, int8_t>>::max() == mtr(int8_t{127}) && std::numeric_limits<au::Quantity<Mtr, int8_t>>::lowest() == mtr(int8_t{-128}));
+SA(au::get_value<int>(au::mag<360>() / au::mag<8>()) == 45 && au::unit_ratio(au::kilo(mtr), mtr) == au::mag<1000>());
+SA(au::unit_label(mtr)[0] == 'm' && sizeof(au::unit_label(au::kilo(mtr))) == 5 && au::mag_label(au::mag<12>())[1] == '2');
+// special members and noexcept (part of the function type since C++17)
+using QI = au::Quantity<Mtr, int>; using PI_ = au::QuantityPoint<Kel, int>;
+SA(std::is_nothrow_default_constructible<QI>::value && std::is_trivially_copyable<QI>::value && std::is_standard_layout<QI>::value && sizeof(QI) == sizeof(int));
+SA(std::is_nothrow_default_constructible<PI_>::value && std::is_trivially_copyable<PI_>::value && std::is_standard_layout<PI_>::value && sizeof(PI_) == sizeof(int));
+SA(std::is_trivially_destructible<QI>::value && std::is_nothrow_copy_constructible<QI>::value && std::is_nothrow_move_assignable<PI_>::value);
+SA(std::is_empty<au::Zero>::value && std::is_empty<au::QuantityMaker<Mtr>>::value && std::is_empty<au::SymbolFor<Mtr>>::value && std::is_empty<au::Constant<Mtr>>::value && std::is_empty<decltype(au::mag<3>())>::value);
+// implicit / explicit conversions: the policy answers must not depend on the standard
+using QM = au::Quantity<au::Milli<Mtr>, int>; using QK = au::Quantity<au::Kilo<Mtr>, int>; using QDm = au::Quantity<Mtr, double>; using QS = au::Quantity<au::Seconds, int>;
+SA(std::is_convertible<QI, QM>::value && !std::is_convertible<QI, QK>::value && std::is_convertible<QI, QDm>::value && !std::is_convertible<QDm, QI>::value);
+SA(!std::is_convertible<QI, QS>::value && !std::is_constructible<QS, QI>::value && !std::is_convertible<int, QI>::value && !std::is_constructible<QI, int>::value && !std::is_convertible<QI, int>::value);
+SA(std::is_convertible<au::Zero, QI>::value && !std::is_convertible<au::Zero, PI_>::value && std::is_convertible<au::Quantity<au::UnitProductT<>, int>, int>::value);
+SA(std::is_convertible<std::chrono::seconds, au::Quantity<au::Milli<au::Seconds>, long>>::value && std::is_convertible<QS, std::chrono::milliseconds>::value && !std::is_convertible<QS, std::chrono::hours>::value);
+SA(std::is_convertible<au::QuantityPoint<Cel, double>, au::QuantityPoint<Kel, double>>::value && !std::is_convertible<au::QuantityPoint<Cel, int>, au::QuantityPoint<Kel, int>>::value);
+SA(std::is_convertible<au::QuantityPoint<Kel, int>, au::QuantityPoint<au::Milli<Kel>, int>>::value && !std::is_convertible<PI_, QI>::value && !std::is_constructible<PI_, au::Quantity<Kel, int>>::value);
+SA(std::is_assignable<QM &, QI>::value && !std::is_assignable<QK &, QI>::value && std::is_assignable<QI &, au::Zero>::value && !std::is_assignable<QI &, int>::value);
+#if __cplusplus >= 201703L
+// class template argument deduction and structured use that only exist from C++17 on: same facts as the C++14 spelling
+constexpr au::Quantity ctad_q = mtr(7); SA(std::is_same<decltype(ctad_q), const au::Quantity<Mtr, int>>::value);
+constexpr au::QuantityPoint ctad_p = kel_pt(3.5); SA(std::is_same<decltype(ctad_p), const au::QuantityPoint<Kel, double>>::value);
+constexpr std::pair ctad_pair{mtr(1), au::seconds(2.0)}; SA(std::is_same<decltype(ctad_pair), const std::pair<au::Quantity<Mtr, int>, au::Quantity<au::Seconds, double>>>::value);
+inline constexpr auto inline_var = au::kilo(mtr)(2); SA(inline_var.in(mtr) == 2000);
+template <auto Q> struct NT { static constexpr auto value = Q; };
+#else
+constexpr au::Quantity<Mtr, int> ctad_q = mtr(7);
+constexpr au::QuantityPoint<Kel, double> ctad_p = kel_pt(3.5);
+constexpr std::pair<au::Quantity<Mtr, int>, au::Quantity<au::Seconds, double>> ctad_pair{mtr(1), au::seconds(2.0)};
+constexpr auto inline_var = au::kilo(mtr)(2);
+#endif
+#if defined(__cpp_impl_three_way_comparison) && __cpp_impl_three_way_comparison >= 201907L
+SA((a <=> b) > 0 && (b <=> a) < 0 && (a <=> a) == 0 && (a <=> f) > 0 && (f <=> a) < 0 && (mtr(1.5) <=> mtr(1)) > 0 && (mtr(int8_t{-1}) <=> mtr(uint16_t{1})) < 0);
+SA((p <=> p2) < 0 && (p2 <=> p) > 0 && (p <=> p) == 0 && (kel_pt(300.0) <=> cel_pt(26.0f)) > 0);
+SA(std::is_same<decltype(a <=> b), std::strong_ordering>::value && std::is_same<decltype(mtr(1.0) <=> mtr(1)), std::partial_ordering>::value);
+#endif
+}  // namespace sxc
+"""
+
+
+def sec_standard_dependent(g):
+    g.begin("stddep")
+    g.ck("stddep.ctad_q", 7, "sxc::ctad_q"), g.ck("stddep.ctad_p", F(7, 2), "sxc::ctad_p"), g.ck("stddep.ctad_pair", 2, "sxc::ctad_pair.second")
+    g.ck("stddep.inline_var", 2000, "sxc::inline_var.in(mtr)")
+    g.ck("stddep.constexpr_compound", 6, "sxc::compound()"), g.ck("stddep.constexpr_point_compound", 302, "sxc::pcompound()")
+    # range-for / algorithms over containers of quantities (uses the comparison operators through std:: templates)
+    g.raw("{ au::Quantity<Mtr, int> arr[] = {mtr(I<int>(5)), mtr(I<int>(-2)), mtr(I<int>(9))}; auto mx = arr[0]; auto sum = mtr(0);")
+    g.raw("  for (const auto &q : arr) { mx = std::max(mx, q); sum += q; }")
+    g.raw("  CK(\"%s\", 9, mx); CK(\"%s\", 12, sum); CK(\"%s\", -2, std::min(arr[1], arr[2])); }" % (g.tag("stddep.std_max"), g.tag("stddep.range_sum"), g.tag("stddep.std_min")))
+
+
 def build(rng):
     g = Gen(rng)
     for sec in SECTIONS:
@@ -404,4 +783,17 @@ def build(rng):
     return g.source(), g.n
 
 
-SECTIONS = [sec_quantity_same, sec_quantity_mixed, sec_qlike_zero]
+SECTIONS = [sec_quantity_same, sec_quantity_mixed, sec_qlike_zero, sec_points, sec_wrappers, sec_constant_mag_traits, sec_math_io, sec_standard_dependent]
+
+
+# ODR-use of the `unit` static data members: a reference to / the address of a constexpr static data member needs a
+# namespace-scope definition in C++14 and none in C++17 (inline variables).  Kept apart from the big program so that a
+# missing definition names exactly the member.
+ODR_MEMBERS = [("Quantity::unit", "au::Quantity<au::Seconds, int>::unit"), ("QuantityMaker::unit", "au::QuantityMaker<au::Seconds>::unit"),
+               ("QuantityPoint::unit", "au::QuantityPoint<au::Seconds, int>::unit"), ("QuantityPointMaker::unit", "au::QuantityPointMaker<au::Seconds>::unit")]
+
+
+def odr_program(expr):
+    return ('#if defined(AU_C20_SINGLE)\n#include "au.hh"\n#else\n#include "au/au.hh"\n#endif\n#include <cstdio>\n'
+            'template <class T> const void *addr(const T &x) { return &x; }\n'
+            'int main() { std::printf("%%d\\n", addr(%s) != nullptr ? 1 : 0); return 0; }\n' % expr)
